@@ -746,3 +746,105 @@ def gaussian_aggregate_replay(keys, alpha=0.9):
                         break
     out["mismatches"] = out["mismatches"][:4]
     return out
+
+
+# ---- C16: the Featurizer clause checker (also used by bounded/c16_featurizer.py) and a battery replay
+def featurizer_clauses(df, n_train, features, fixed_effects, states_sep=()):
+    """the REAL Featurizer driven the way the models drive it, checked clause by clause against the statement of C16;
+    returns None or a dict describing the violated clause"""
+    import numpy as np
+
+    from elexmodel.handlers.data.Featurizer import Featurizer
+
+    fz = Featurizer(list(features), fixed_effects if isinstance(fixed_effects, list) else dict(fixed_effects), states_for_separate_model=list(states_sep))
+    x_all = fz.prepare_data(df, center_features=True, scale_features=False, add_intercept=True)
+    fit = fz.filter_to_active_features(x_all[:n_train])
+    hold = fz.generate_holdout_data(x_all[n_train:])
+    if list(fit.columns) != list(hold.columns):
+        return {"clause": "same columns in the same order", "fit": list(fit.columns), "predict": list(hold.columns)}
+    cols = list(fit.columns)
+    if cols[0] != "intercept":
+        return {"clause": "intercept first", "columns": cols}
+    ranks = [0 if c.startswith("intercept") else 1 if c.startswith("baseline_normalized_margin") else 2 for c in cols]
+    if ranks != sorted(ranks):
+        return {"clause": "intercept, then baseline margin terms, then the rest", "columns": cols}
+    if len(fit) != n_train or len(hold) != len(df) - n_train:
+        return {"clause": "row preserving", "rows": [len(fit), len(hold)]}
+    fitting = df.iloc[:n_train]
+    fitting = fitting[(fitting.reporting == 1) & (fitting.unit_category == "expected")]
+    fe_names = fixed_effects if isinstance(fixed_effects, list) else list(fixed_effects)
+    for fe in fe_names:
+        sel = None if isinstance(fixed_effects, list) or fixed_effects[fe] == "all" or "all" in fixed_effects[fe] else list(fixed_effects[fe])
+        pool = (lambda s: s if sel is None else np.where(s.isin(sel), s, "other"))
+        lv_fit = sorted(set(pool(fitting[fe])))
+        dummies = [c for c in cols if c.startswith(fe + "_")]
+        k = len(dummies)
+        if lv_fit and k != len(lv_fit) - 1:
+            return {"clause": "exactly one observed level per fixed effect is absorbed by the intercept", "fe": fe, "observed_levels": lv_fit, "dummies": dummies}
+        for c in dummies:
+            lvl = c[len(fe) + 1 :]
+            if lvl not in lv_fit:
+                return {"clause": "fitted dummies are levels observed on the fitting rows", "column": c, "observed": lv_fit}
+            col = fit.loc[fitting.index, c] if len(fitting) else fit[c]
+            if col.nunique() < 2 and len(fitting) > 1 and len(lv_fit) > 1:
+                return {"clause": "every fitted dummy is non-constant on the fitting rows", "column": c}
+            if sel is not None and lvl not in sel and lvl != "other":
+                return {"clause": "unselected levels are pooled into 'other'", "column": c}
+        absorbed = [l for l in lv_fit if f"{fe}_{l}" not in dummies]
+        rest = df.iloc[n_train:]
+        for i, (_, row) in enumerate(rest.iterrows()):
+            lvl = row[fe] if sel is None or row[fe] in sel else "other"
+            got = [float(hold.iloc[i][c]) for c in dummies]
+            if lvl in lv_fit:
+                exp = [1.0 if c == f"{fe}_{lvl}" else 0.0 for c in dummies]
+            else:
+                exp = [1.0 / (k + 1)] * k
+            if not np.allclose(got, exp):
+                return {"clause": "seen level -> its indicator; unseen level -> equal share 1/(k+1) on the k fitted levels", "fe": fe, "unit_level": lvl, "seen_in_fitting": lvl in lv_fit, "observed": got, "expected": exp, "absorbed": absorbed}
+    for f in features:
+        if f in x_all.columns and not states_sep:
+            if not np.allclose(x_all[f].values, (df[f] - df[f].mean()).values):
+                return {"clause": "continuous features are centred over all units", "feature": f}
+    for st in states_sep:
+        has_rep = ((df.reporting == 1) & (df.postal_code == st)).any()
+        made = any(c.endswith("_" + st) for c in x_all.columns if c not in df.columns)
+        if made and not has_rep:
+            return {"clause": "per-state feature copies only for states that have reporting units", "state": st}
+    return None
+
+
+def featurizer_battery_replay(fes, params, features, states=()):
+    """REAL Featurizer on every assignment of 3 level names to 4 units (1..3 fitting rows, optionally one reporting
+    but unexpected unit) for the given configuration of fixed effects / selected levels / features"""
+    import itertools
+
+    import numpy as np
+    import pandas as pd
+
+    LV = {"fe1": ["a", "b", "c"], "fe2": ["x", "y"]}
+    rng = np.random.default_rng(3)
+    out = {"exc": None, "ok": True, "failures": [], "evaluated": 0}
+    n = 4
+    fixed = {fe: (params[fe] if params else "all") for fe in fes} if params else list(fes)
+    for n_fit in range(1, n):
+        for lv1 in itertools.product(LV[fes[0]] if fes else ["-"], repeat=n):
+            for unexpected_in_fit in ((False, True) if n_fit >= 2 else (False,)):
+                df = pd.DataFrame({"postal_code": ["AA" if i % 2 == 0 else "BB" for i in range(n)], "reporting": [1] * n_fit + [0] * (n - n_fit), "unit_category": ["expected"] * n})
+                if fes:
+                    df[fes[0]] = list(lv1)
+                for fe in fes[1:]:
+                    df[fe] = [LV[fe][(i * 2 + 1) % len(LV[fe])] for i in range(n)]
+                if unexpected_in_fit:
+                    df.loc[n_fit - 1, "unit_category"] = "unexpected"
+                for f in features:
+                    df[f] = rng.normal(size=n)
+                out["evaluated"] += 1
+                try:
+                    bad = featurizer_clauses(df, n_fit, list(features), fixed, states_sep=states)
+                except Exception as e:  # noqa
+                    bad = {"clause": "no failure", "exc": f"{type(e).__name__}: {e}"}
+                if bad:
+                    out["ok"] = False
+                    if len(out["failures"]) < 3:
+                        out["failures"].append({"levels": list(lv1), "n_fit": n_fit, "unexpected_in_fit": unexpected_in_fit, **{k: (v if isinstance(v, (str, int, float, list, bool)) else str(v)) for k, v in bad.items()}})
+    return out
